@@ -5,6 +5,7 @@ import (
 	"compress/gzip"
 	"encoding/binary"
 	"fmt"
+	"hash/crc32"
 	"io/ioutil"
 	"net/http"
 	"strconv"
@@ -108,10 +109,26 @@ func (d *Data) transcodeBlock(b blockData) (out []byte, err error) {
 		start = 1
 	}
 
+	if len(b.data) < start {
+		err = fmt.Errorf("block %s serialization is too short (%d bytes)", b.bcoord, len(b.data))
+		return
+	}
+	if checksum == dvid.CRC32 {
+		stored := binary.LittleEndian.Uint32(b.data[1:5])
+		if got := crc32.ChecksumIEEE(b.data[start:]); got != stored {
+			err = fmt.Errorf("block %s has bad checksum: stored %x got %x", b.bcoord, stored, got)
+			return
+		}
+	}
+
 	var outsize uint32
 
 	switch formatIn {
 	case dvid.LZ4:
+		if len(b.data) < start+4 {
+			err = fmt.Errorf("block %s lz4 serialization is too short (%d bytes)", b.bcoord, len(b.data))
+			return
+		}
 		outsize = binary.LittleEndian.Uint32(b.data[start : start+4])
 		out = b.data[start+4:]
 		if len(out) != int(outsize) {
